@@ -148,7 +148,14 @@ def run(ctx):
     ss = summarize(prog, send)
     so = summarize(prog, send_owner)
     from ..helpers import unknown_callee
-    wcalls = [n for n in ast.walk(loop) if isinstance(n, ast.Call) and (attr_call(n, "_protocol", "write") or unknown_callee(prog, send_owner, n) is not None)]
+    # (a transmission: the write itself, or a helper the loop hands the packet to that performs it - not a helper that only cleans up or logs)
+    def _transmits(n):
+        if attr_call(n, "_protocol", "write"):
+            return True
+        h_ = unknown_callee(prog, send_owner, n)
+        return h_ is not None and contains_call(prog, h_, h_.node, lambda c: attr_call(c, "_protocol", "write"))
+    from ..helpers import contains_call
+    wcalls = [n for n in ast.walk(loop) if isinstance(n, ast.Call) and _transmits(n)]
     for w in wcalls:
         t = so.ta.terms_at.get(w.args[0]) if w.args else None
         if t is None:
@@ -337,6 +344,19 @@ def run(ctx):
     # (and what `authenticated` means) is C07's session discipline, re-run here as a premise
     from . import c07
     ctx.import_rules(c07, "t7")
+    # ---- C08.f recovery "including re-authentication on V3" uses the cached credentials: once the handshake has succeeded they are cached in the
+    # same atomic section - no suspension point (cancellation point) between the successful `_protocol.authenticate` and the stores of
+    # _token / _key.  A caller's timeout that lands in such a window leaves a session that works until the connection drops and then cannot
+    # be re-established without the user.
+    from ..atomic import sections, self_call, simple, stores_self_attr
+    sec = sections(prog, la_, lambda n: simple(n) and self_call(n, "_protocol", "authenticate"), lambda n: stores_self_attr(n, ("_token", "_key")))
+    ctx.count("credential_store_sites", len(sec))
+    for n_, dirty in sec.items():
+        ctx.ob("C08.f", la_.qual, not dirty, "the credentials are cached in the atomic section in which the handshake succeeded (no cancellation point in between)",
+               func=la_.qual, file=file, node=n_, detail={"suspension_points": dirty},
+               fail=f"`{norm(n_)[:50]}` runs only after `{dirty[0] if dirty else ''}`: a cancellation / caller timeout there leaves an authenticated session whose "
+                    "credentials were never cached - after the next connection loss every exchange fails with 'Token and key must be supplied'")
+    ctx.require_min("credential_store_sites", 1)
     # ---- C08.e every read of the exchange is bounded by its timeout: the wait on the receive queue is a wait_for with the caller's timeout,
     # and a timeout of that wait reaches the retry loop as a timeout (nothing between the wait and LAN.send swallows it or waits again)
     from ..helpers import with_helpers
